@@ -19,7 +19,9 @@ RULE = ('(type in the 5 fragmentable types) x framing mode x fragment size x dat
         'fragment has the original type, stream id and initial request-n, the rest are PAYLOAD; follows on all but the '
         'last; complete only on the last and equal to the original; all metadata before any data; concatenations equal '
         'the original; a frame that fits is one fragment; FrameFragmentCache reassembles the original frame and is '
-        'empty afterwards; both codec backends. Non-trivial = >= 2 fragments or total length within 3 bytes of the '
+        'empty afterwards; both codec backends; plus reconnect histories of one client object in which the server was half '
+        'way through a fragmented request when the connection ended and the next connection carries a fragmented request '
+        'on the same stream id (what the handler receives == what was sent). Non-trivial = >= 2 fragments or total length within 3 bytes of the '
         'single-frame limit; distinct = distinct (type, mode, size, dlen, mlen, flags).')
 ASSUMPTIONS = ['reference codec (harness/refcodec.py) decodes the fragments',
                'payload contents are a deterministic non-periodic pattern, so lengths identify a case']
@@ -277,6 +279,34 @@ def hyp_shard(tier, seed, n):
     return stats
 
 
+def reconnect_prop(wrapped):
+    """Reassembly across connections of one client object: a fragmented request the server had half sent when the
+    connection ended must not be merged with the fragmented request the next connection's server sends on the same
+    stream id (C17's reconnect histories with fragmentation on; what the client's handler received is compared with
+    what was sent)."""
+    from harness import monitors
+    from harness.checks import c17
+    from harness.programs import run_program
+    case = wrapped['reconnect']
+    prog, plan = c17.build(case)
+    tr = run_program(prog)
+    probe_uids = [u for p_ in plan for u in p_['probes']]
+    skip = set(range(len(prog['inter']))) - set(probe_uids)
+    vs = monitors.mon_delivery(tr, PID, require_complete=False, skip_uids=skip)
+    info['nt'] = any(e.get('server_partial') for e in case['endings'])
+    info['classes'] = ['part=reconnect', 'reconnects=%d' % len(case['endings'])]
+    return vs
+
+
+def reconnect_shard(tier, seed, n):
+    from harness.checks import c05
+    common.use_repo()
+    stats = common.Stats()
+    known = common.Known(PID)
+    common.hyp_search(stats, known, c05.reconnect_cases(), reconnect_prop, n, seed, classify=classify, shrink=False)
+    return stats
+
+
 def run(tier, seed):
     t0 = time.time()
     jobs = []
@@ -297,6 +327,8 @@ def run(tier, seed):
     nsh = common.NPROC
     for s in common.shard_seeds(seed, nsh):
         jobs.append(('hyp_shard', dict(tier=tier, seed=s, n=nh // nsh)))
+    for s in common.shard_seeds(seed, 4):
+        jobs.append(('reconnect_shard', dict(tier=tier, seed=s + 31, n=(160 if tier == 'quick' else 4000) // 4)))
     stats = common.run_shards_multi(__name__, jobs)
     stats.exhaustive = None  # the windows are exhaustive, the Hypothesis part is not: say so in a dedicated key
     stats.extra['exhaustive_windows'] = ['%s/%s/size=%d/complete=%s' % (t, 'length-prefixed' if lp else 'message', s, c)
@@ -307,6 +339,9 @@ def run(tier, seed):
 
 def replay(path):
     c = common.load_replay(path)
+    if 'reconnect' in c:
+        common.use_repo()
+        return common.report_replay(PID, path, reconnect_prop(c))
     if 'lp' in c and 'next' not in c:
         c = dict(c, next=False, n=7 if (c['dlen'] + c['mlen']) % 3 else 0x7FFFFFFF)
     common.use_repo()
